@@ -14,7 +14,7 @@ nr,<name>,<ty>,<acc>,<cn|->      r<k> = Result(name, ty, acc, choice_num)
 u,<ref>,<v>,<t|->                ref.update(v, t)
 m,<ref>,<ref>                    a.merge(b)
 ns                               s<k> = SimulationResults()
-sp,<s>,<fixed|->,<unp|->         set_parameters   (k=v&k=v , k=v:v:v&k=v:v)
+sp,<s>,<fixed|->,<unp|->         set_parameters   (k=v&k=v , k=v:v:v&k=v:v ; unpacked values p/q)
 ad,<s>,<ref>  ap,<s>,<ref>       add_result / append_result
 aa,<s>,<o>  ma,<s>,<o>           append_all_results / merge_all_results
 mao,<s>,<o>                      merge_all_results of the source before the repair (model only)
@@ -74,11 +74,11 @@ def parseFixed? (s : String) : Option (List (String × Int)) :=
     let i ← v.toInt?
     pure (k, i))
 
-def parseUnp? (s : String) : Option (List (String × List Int)) :=
+def parseUnp? (s : String) : Option (List (String × List Rat)) :=
   if s = "-" then some [] else
   (s.splitOn "&").mapM (fun e => do
     let (k, v) ← parseKV? e
-    let l ← parseIntList? v ":"
+    let l ← parseRatList? v ":"
     pure (k, l))
 
 def showRes (r : Res) : String :=
@@ -98,7 +98,7 @@ def showER : Except PyErr Rat → String
 
 def showParams (p : Params) : String :=
   showList (fun e => e.1 ++ "=" ++ toString e.2) p.fixed "&" ++ "~" ++
-  showList (fun e => e.1 ++ "=" ++ showList toString e.2 ":") p.unp "&"
+  showList (fun e => e.1 ++ "=" ++ showList showRat e.2 ":") p.unp "&"
 
 def showSim (s : Sim) : String :=
   showList (fun e => e.1 ++ ">" ++ toString e.2) s.dict "," ++ "@" ++ showParams s.params
@@ -116,6 +116,14 @@ def record (st : St) (i : Nat) (p : Mach × Option PyErr) : St :=
   | some e => { st with m := p.1, errs := (toString i ++ ":" ++ toString e) :: st.errs }
 
 def out (st : St) (i : Nat) (s : String) : St := { st with outs := (toString i ++ ":" ++ s) :: st.outs }
+
+def setParams (st : St) (s fx un : String) : Option St := do
+  let s ← s.toNat?
+  let fx ← parseFixed? fx
+  let un ← parseUnp? un
+  if s < st.m.sims.length then
+    pure { st with m := { st.m with sims := st.m.sims.modify s (fun x => { x with params := ⟨fx, un⟩ }) } }
+  else none
 
 /-- one op; `none` = malformed op -/
 def stepOp (st : St) (i : Nat) (op : String) : Option St :=
@@ -136,13 +144,9 @@ def stepOp (st : St) (i : Nat) (op : String) : Option St :=
       let b ← resolve st rb
       pure (record st i (mergeR st.m a b))
   | ["ns"] => pure { st with m := { st.m with sims := st.m.sims ++ [{ dict := [], params := ⟨[], []⟩ }] } }
-  | ["sp", s, fx, un] => do
-      let s ← s.toNat?
-      let fx ← parseFixed? fx
-      let un ← parseUnp? un
-      if s < st.m.sims.length then
-        pure { st with m := { st.m with sims := st.m.sims.modify s (fun x => { x with params := ⟨fx, un⟩ }) } }
-      else none
+  | ["sp", s, fx, un, _dtypes] =>   -- 5th field: numpy dtypes of the arrays, used by the harness only
+      setParams st s fx un
+  | ["sp", s, fx, un] => setParams st s fx un
   | ["ad", s, ref] => do
       let s ← s.toNat?
       let a ← resolve st ref
